@@ -54,6 +54,23 @@ def gen_pair(r):
         nm = r.choice(["R0x", "R0", "R"])
         if nm not in [x["name"] for x in U["kids"]]:
             k["name"] = nm
+    # a node and a SIBLING whose name merely starts with the node's name (scan / scan2), somewhere in the common universe
+    if r.random() < 0.3:
+        holders = []
+        def collect(n):
+            if n["kids"]:
+                holders.append(n)
+            for k in n["kids"]:
+                collect(k)
+        collect(U)
+        if holders:
+            h = r.choice(holders)
+            k = r.choice(h["kids"])
+            nm = k["name"] + r.choice(["2", "_b", "x"])
+            res = gen.reserved_names(h) if h["cls"] != "Root" else {"metadatabundle"}
+            if nm not in [x["name"] for x in h["kids"]] and nm not in res:
+                cls = r.choice(gen.CLASSES)
+                h["kids"].append({"name": nm, "cls": cls, "pay": gen.gen_payload(r, cls), "md": [], "kids": []})
     fresh = set()
     F = variant(r, U, fresh)
     R = variant(r, U, fresh)
@@ -83,6 +100,16 @@ def gen_append(r, F, R, X):
     if kind < 0.55:
         return {"src": "R", "target": list(r.choice(rp)), "mode": mode, "tree": r.choice([True, False, None]), "emdpath": None}
     if kind < 0.85:
+        # directed, when the coincidence exists: a runtime node that is in the file, under the emdpath of a file SIBLING whose
+        # name merely starts with the node's name
+        if r.random() < 0.25:
+            fps = set(tuple(p) for p in fp)
+            pairs = [(list(t), list(s)) for t in rp if len(t) > 0 and tuple(t) in fps
+                     for s in fp if len(s) == len(t) and tuple(s[:-1]) == tuple(t[:-1]) and s[-1] != t[-1] and s[-1].startswith(t[-1])]
+            if pairs:
+                t, sib = r.choice(pairs)
+                eps = "/".join(["R0"] + sib)
+                return {"src": "R", "target": t, "mode": mode, "tree": r.choice([True, None, None, False]), "emdpath": eps}
         tgt = list(r.choice(rp))
         if r.random() < 0.15:
             tgt = []            # the Root itself saved under an emdpath (C09_emdpath_from_root)
